@@ -10,6 +10,8 @@ package migration
 // pod state read from the API at that instant.
 //
 // input  : direct paused ttl pvalid initphase rref0 createdBy tmpl nops, then nops records of 12 ints
+//          direct = 0 Spec.Mode ReservationFirst, 1 EvictDirectly, 2 Spec.Mode "" with DefaultJobMode ReservationFirst,
+//                   3 Spec.Mode "" with DefaultJobMode EvictDirectly (odd = the job evicts directly)
 //          tmpl = user-supplied Spec.ReservationOptions.Template: 0 none; else o*4 + a with
 //                 a = 1 AllocateOnce nil, 2 true, 3 false; o = 0 no Owners, 1 a controller owner, 2 an object owner
 //          kind a1..a11:
@@ -25,7 +27,10 @@ package migration
 //                         controller's syncStatus records it (CurrentOwners; Succeeded iff IsReservationAllocateOnce)
 // observable: per op   nEff, nEff x (kind ok + 10 stamp ints + phase), 14 job ints, 4 reservation ints
 //          effect kinds: 1 Evict, 2 CreateReservation, 3 DeleteReservation (stamped), 4 successful write of the
-//          job (Update / Status().Update; zero stamp, phase = the phase it persists)
+//          job (Update / Status().Update; zero stamp, phase = the phase it persists); for an Evict the last int
+//          is the UID of the pod object handed to the evictor
+// decoys (never touched by a correct controller): a pod with the target's name in another namespace, sitting
+// on node n02, and a consumed, expired Reservation under another name
 
 import (
 	"context"
@@ -166,6 +171,7 @@ type vtC17World struct {
 	clk     *fakeclock.FakeClock
 	rec     *Reconciler
 	gen     int
+	defMode sev1alpha1.PodMigrationJobMode
 	mask    int64
 	nwrite  int
 	effects []int64
@@ -264,11 +270,18 @@ func (w *vtC17World) record(kind int64, ok bool, st []int64, ph int64) {
 // recording evictor interpreter
 func (w *vtC17World) Evict(ctx context.Context, job *sev1alpha1.PodMigrationJob, pod *corev1.Pod) error {
 	st := w.stamp()
+	who := int64(-1)
+	if pod != nil {
+		who = vtC17ID(string(pod.UID))
+		if pod.Namespace != vtC17NS || pod.Name != vtC17Pod {
+			who = -3 // some other pod
+		}
+	}
 	if w.fail() {
-		w.record(1, false, st, 0)
+		w.record(1, false, st, who)
 		return fmt.Errorf("verif: injected eviction failure")
 	}
-	w.record(1, true, st, 0)
+	w.record(1, true, st, who)
 	return nil
 }
 
@@ -342,7 +355,7 @@ func (w *vtC17World) funcs() interceptor.Funcs {
 
 func (w *vtC17World) newReconciler() {
 	args := &deschedulerconfig.MigrationControllerArgs{
-		DefaultJobMode: string(sev1alpha1.PodMigrationJobModeReservationFirst),
+		DefaultJobMode: string(w.defMode),
 	}
 	r := &Reconciler{
 		Client:                 w.faulty,
@@ -576,6 +589,25 @@ func (w *vtC17World) summary() []int64 {
 	return append(out, env...)
 }
 
+func vtC17Decoys(c client.Client) {
+	ctx := context.TODO()
+	p := &corev1.Pod{ObjectMeta: metav1.ObjectMeta{Namespace: "other", Name: vtC17Pod, UID: "u09"}}
+	p.Spec.NodeName = "n02"
+	p.Status.Phase = corev1.PodRunning
+	if err := c.Create(ctx, p); err != nil {
+		panic(err)
+	}
+	r := &sev1alpha1.Reservation{ObjectMeta: metav1.ObjectMeta{Name: vtC17JobUID + "-other"}}
+	r.Status.Phase = sev1alpha1.ReservationSucceeded
+	r.Status.NodeName = "n01"
+	r.Status.CurrentOwners = []corev1.ObjectReference{{Namespace: "other", Name: vtC17Pod, UID: "u09"}}
+	r.Status.Conditions = []sev1alpha1.ReservationCondition{{Type: sev1alpha1.ReservationConditionReady,
+		Status: sev1alpha1.ConditionStatusFalse, Reason: sev1alpha1.ReasonReservationExpired}}
+	if err := c.Create(ctx, r); err != nil {
+		panic(err)
+	}
+}
+
 func vtC17Exec(in []int64) []int64 {
 	vtC17Init()
 	direct, paused, ttl, pvalid, initphase, rref0, createdBy, tmpl, nops := in[0], in[1], in[2], in[3], in[4], in[5], in[6], in[7], int(in[8])
@@ -583,7 +615,12 @@ func vtC17Exec(in []int64) []int64 {
 	w.base = fake.NewClientBuilder().WithScheme(vtC17Scheme).WithStatusSubresource(&sev1alpha1.PodMigrationJob{}).Build()
 	w.faulty = interceptor.NewClient(w.base, w.funcs())
 	w.clk = fakeclock.NewFakeClock(vtC17Base)
+	w.defMode = sev1alpha1.PodMigrationJobModeReservationFirst
+	if direct == 3 {
+		w.defMode = sev1alpha1.PodMigrationJobModeEvictionDirectly
+	}
 	w.newReconciler()
+	vtC17Decoys(w.base)
 
 	job := &sev1alpha1.PodMigrationJob{
 		ObjectMeta: metav1.ObjectMeta{Name: vtC17JobName, UID: vtC17JobUID, CreationTimestamp: metav1.Time{Time: vtC17Base}},
@@ -593,8 +630,11 @@ func vtC17Exec(in []int64) []int64 {
 			Mode:   sev1alpha1.PodMigrationJobModeReservationFirst,
 		},
 	}
-	if direct != 0 {
+	switch direct {
+	case 1:
 		job.Spec.Mode = sev1alpha1.PodMigrationJobModeEvictionDirectly
+	case 2, 3:
+		job.Spec.Mode = ""
 	}
 	if ttl != 0 {
 		job.Spec.TTL = &metav1.Duration{Duration: time.Duration(ttl) * time.Second}
@@ -847,6 +887,9 @@ func vtC17Gen(r *rand.Rand, i int) (string, []int64) {
 		tmpl = int64(1+r.Intn(3)) + 4*[]int64{0, 0, 0, 1, 2}[r.Intn(5)]
 	}
 	initphase := int64(r.Intn(2))
+	if r.Intn(25) == 0 {
+		initphase = int64(2 + r.Intn(4)) // created Running, or already finished: Succeeded / Failed / Aborted
+	}
 	if r.Intn(40) == 0 {
 		paused = 1
 	}
@@ -855,6 +898,9 @@ func vtC17Gen(r *rand.Rand, i int) (string, []int64) {
 	}
 	if r.Intn(4) == 0 {
 		ttl = int64(5 + r.Intn(30))
+		if r.Intn(10) == 0 {
+			ttl = []int64{-1, 1, 1 << 31}[r.Intn(3)] // a negative TTL has always elapsed; seconds beyond int32
+		}
 	}
 	if r.Intn(8) == 0 {
 		createdBy = 1
@@ -1079,6 +1125,12 @@ func vtC17Gen(r *rand.Rand, i int) (string, []int64) {
 	}
 	if g.faulty == 0 && label != "random" && !vtC17HasMask(g.in) {
 		label += ":nofault"
+	}
+	if r.Intn(4) == 0 {
+		direct += 2 // the mode comes from the controller's DefaultJobMode
+	}
+	if initphase >= 2 {
+		pvalid = 1 // an invalid PodRef is only modelled for a job that is still pending
 	}
 	hdr := []int64{direct, paused, ttl, pvalid, initphase, rref0, createdBy, tmpl, int64(g.n)}
 	return label, append(hdr, g.in...)
